@@ -2,6 +2,8 @@ package service
 
 import (
 	gocontext "context"
+	"fmt"
+	"github.com/orda-io/orda/client/pkg/errors"
 	"github.com/orda-io/orda/client/pkg/iface"
 	"github.com/orda-io/orda/client/pkg/log"
 	"github.com/orda-io/orda/client/pkg/model"
@@ -26,9 +28,16 @@ func (its *OrdaService) TestEncodingOperation(
 ) (ret *model.EncodingMessage, er error) {
 	log.Logger.Infof("Receive %v", in)
 	defer func() {
+		if r := recover(); r != nil {
+			// a message that cannot be processed is answered with an error; it must not end the server
+			ret, er = nil, errors.NewRPCError(errors.ServerBadRequest.New(log.Logger, fmt.Sprintf("%v", r)))
+		}
 		log.Logger.Infof("Returns %v, %v", ret, er)
 	}()
-	decodedOp := its.decodeModelOp(in.Op)
+	decodedOp := its.decodeModelOp(in.GetOp())
+	if decodedOp == nil {
+		return nil, errors.NewRPCError(errors.ServerBadRequest.New(log.Logger, "no decodable operation in the message"))
+	}
 	switch cast := decodedOp.(type) {
 	case *operations.SnapshotOperation:
 		return its.testEncodingSnapshotOperation(goCtx, in.Type, cast)
